@@ -1153,6 +1153,8 @@ def c11(tier, seed):
     c.cov["exhaustive"] = True
     c.cov["bounds"] = {"pairs": "all (N, M) in 0..6 x 0..6 plus (1,1024), (1024,1), (16,64), (2,8), (8,2); owned, & and &mut forms"}
     c.conform(binary, with_etys(owned, ["tk", "zst", "plain", "plz"]), "owned")
+    # the large pairs once more with 256-byte tracked elements (256 KiB in all: a path chosen by byte size)
+    c.conform(binary, with_etys([s for s in owned if s["d"]["n"] * s["d"]["m"] >= 1024], ["tk1k"]), "owned-large-bytes")
     return c.finish()
 
 
